@@ -90,16 +90,24 @@ theorem mem_keyUniverse {E : Env} {S0 : KVs} {f n : String} (hf : f ∈ allFiles
 
 /-- the environment does not itself produce the model's out-of-fuel marker -/
 def FuelFree (E : Env) : Prop :=
-  (∀ b s, E.extend b s ≠ .panic fuelMark) ∧ (∀ f s, fsLookup f E.fs = some (.panic s) → s ≠ fuelMark)
+  (∀ b s, E.extend b s ≠ .panic fuelMark) ∧ (∀ f s, fsPanics E.fs f s → s ≠ fuelMark)
 
 theorem baseFromFile_panic {fs : FS} {f ref s : String} (h : baseFromFile fs f ref = .panic s) :
-    fsLookup f fs = some (.panic s) := by
+    fsPanics fs f s := by
   unfold baseFromFile at h
-  split at h <;> try cases h
-  · rename_i hl; exact hl
+  split at h
+  · cases h
+  · cases h
+  · rename_i s' hl
+    injection h with h; subst h
+    exact ⟨_, hl, rfl⟩
   · split at h <;> try cases h
     split at h <;> try cases h
     split at h <;> cases h
+  · rename_i doc site hl
+    split at h <;> try cases h
+    split at h <;> try cases h
+    exact ⟨_, hl, rfl⟩
 
 theorem trackerAdd_some {tr tr' : List Key} {k : Key} (h : trackerAdd tr k = some tr') :
     k ∉ tr ∧ tr' = tr ++ [k] := by
@@ -116,7 +124,7 @@ theorem parseExtends_panic {e : Val} {s : String} (h : parseExtends e = .panic s
   · cases h
 
 theorem resolveBase_panic {E : Env} {cur name ref : String} {file : Option String} {S : KVs} {s : String}
-    (h : resolveBase E cur name ref file S = .panic s) : ∃ f, fsLookup f E.fs = some (.panic s) := by
+    (h : resolveBase E cur name ref file S = .panic s) : ∃ f, fsPanics E.fs f s := by
   unfold resolveBase at h
   cases file with
   | none => simp only at h; split at h <;> cases h
@@ -299,7 +307,7 @@ theorem applySvc_ok_shape {E : Env} : ∀ {fuel : Nat} {cf n : String} {cur : KV
 /-- a panic of `applySvc` is the out-of-fuel marker, a panic of the merge step, or a panic while loading a file -/
 theorem applySvc_panic_src (E : Env) : ∀ (fuel : Nat) (cf n : String) (cur : KVs) (tr : List Key) (s : String),
     applySvc E fuel cf n cur tr = .panic s →
-    s = fuelMark ∨ (∃ b svc, E.extend b svc = .panic s) ∨ (∃ f, fsLookup f E.fs = some (.panic s)) := by
+    s = fuelMark ∨ (∃ b svc, E.extend b svc = .panic s) ∨ (∃ f, fsPanics E.fs f s) := by
   intro fuel
   induction fuel with
   | zero => intro cf n cur tr s h; simp only [applySvc, Out.panic.injEq] at h; exact Or.inl h.symm
@@ -340,7 +348,7 @@ theorem applySvc_panic_src (E : Env) : ∀ (fuel : Nat) (cf n : String) (cur : K
 
 theorem applyAll_panic_src (E : Env) (fuel : Nat) : ∀ (names : List String) (cur : KVs) (s : String),
     applyAll E fuel names cur = .panic s →
-    s = fuelMark ∨ (∃ b svc, E.extend b svc = .panic s) ∨ (∃ f, fsLookup f E.fs = some (.panic s)) := by
+    s = fuelMark ∨ (∃ b svc, E.extend b svc = .panic s) ∨ (∃ f, fsPanics E.fs f s) := by
   intro names
   induction names with
   | nil => intro cur s h; simp [applyAll] at h
